@@ -122,14 +122,20 @@ class C09(InputProp):
         consumed = Product(TAGS, sorted(CONSUMING), Seqs(SIGMA_B, 1 if tier == "quick" else 2, minlen=1), name="consumed")
         # the function form of a tag with its body protected by <nowiki>: {{#tag:source|<nowiki>code</nowiki>}}
         tagfn = Product(["pre", "source", "syntaxhighlight", "math", "timeline"], ["tag-function"], Seqs(SIGMA_B, 1 if tier == "quick" else 2, minlen=1), name="tagfn")
-        self.space = Concat(bodies, heavy, twins, consumed, tagfn) if tier == "quick" else Concat(bodies, bodies3, heavy, twins, consumed, tagfn)
+        spelled = Product(TAGS, [c + "@" + sp for c in ("top", "cell", "positional-arg", "template-body", "in-ref") for sp in ("upper", "capitalized", "close-upper", "camel")],
+                          Seqs(SIGMA_B, 1 if tier == "quick" else 2, minlen=1), name="bodies")
+        self.space = Concat(bodies, heavy, twins, consumed, tagfn, spelled) if tier == "quick" else Concat(bodies, bodies3, heavy, twins, consumed, tagfn, spelled)
         self.ctx = {c[0]: c for c in CONTEXTS}
         self.baselines = {}
 
     def page(self, tag, ctxname, body):
+        ctxname, _, spell = ctxname.partition("@")
         _, tmpl, pages = self.ctx[ctxname]
+        # tag names are case-insensitive: <Math>, <PRE>, <NoWiki>, or only the closing tag in another case
+        to, tc = {"": (tag, tag), "upper": (tag.upper(), tag.upper()), "capitalized": (tag.capitalize(), tag), "close-upper": (tag, tag.upper()),
+                  "camel": (tag[:2].upper() + tag[2:], tag[:1].upper() + tag[1:])}[spell]
         # a second instance of the tag follows, so that a match running past the closing tag is visible
-        inner = "%s%s<%s>%s</%s>%s<%s>w</%s>" % (S0, GLUE.get(ctxname, ""), tag, body, tag, S1, tag, tag)
+        inner = "%s%s<%s>%s</%s>%s<%s>w</%s>" % (S0, GLUE.get(ctxname, ""), to, body, tc, S1, to, tc)
         if ctxname == "template-body":
             return "{{B}}", {"B": inner, "T": "tt"}
         pg = dict(pages or {})
@@ -138,7 +144,7 @@ class C09(InputProp):
 
     def tree(self, tag, ctxname, body):
         text, pages = self.page(tag, ctxname, body)
-        if ctxname.endswith("-nodb"):
+        if ctxname.partition("@")[0].endswith("-nodb"):
             return self.parse(title="Test", raw=text, wikidb=None, lang="en"), text
         return self.parse(title="Test", raw=text, wikidb=LangDB("en", pages), lang="en"), text
 
